@@ -14,7 +14,10 @@ Decided:
          one codec / serializer / charset; quote() is total on every value unquote() can return: it has no escaping
          ``raise``, and each text -> bytes step is total on the class of text that reaches it (the serializer's output
          is 'ascii' unless ensure_ascii is switched off, then 'any str, unpaired surrogates included'; a strict
-         encode of the latter is a violation, a non-strict error handler or an enclosing handler discharges it);
+         encode of the latter is a violation, a non-strict error handler or an enclosing handler discharges it); the two
+         pipelines are inverse in shape: quote() is layout(encoder(text->bytes(dumps(v)))) of the value it is given, itself, and
+         nothing is cut out of the payload; unquote() returns loads(bytes->text(decoder(v))) as it is, loads gets no hook that
+         rebuilds values; UnquoteError is resolved in the module unquote() is written in;
   R16.c  MAC before use (dependency): cls.unquote and the _expires comparison are dominated by the
          safe_str_cmp(client_hash, mac.digest()) test; the MAC is never compared with == ; a non-empty value of the data reaches
          the returned cookie only along paths through the successful comparison; every return builds cls(<data>, secret_key, ..);
@@ -44,7 +47,9 @@ Decided:
          one, and nothing is written to it there; request() provides to the endpoint and saves the very object load_cookie
          returned (no re-binding on the way), writes nothing into it but the expiry stamp, and that only after the endpoint ran;
          neither the stamp nor the expires / session_expires handed to save_cookie (which the dependency signs into the cookie as
-         _expires) derives from the request other than through the verified cookie.
+         _expires) derives from the request other than through the verified cookie; the expiry handed to save_cookie is the
+         cookie's own _expires entry, read after the endpoint ran (the dependency overwrites the entry with what it is given),
+         or anything at all only where the cookie has none.
   R16.h  what the application stored is written back: should_save (what save_cookie consults), looked up along the MRO of
          JSONCookie, is the dependency's (= modified) or an override that narrows it only by comparing the contents with a
          snapshot that shares no mutable object with the live cookie (deepcopy / a serialised form; a shallow copy or an alias
@@ -52,7 +57,8 @@ Decided:
          constructor override hands data / secret_key / new to the dependency unchanged on every path and stores nothing into
          the cookie; any other member of the dependency's load / save machinery that the class or a mixin replaces is an
          analysis gap.
-Declined: cryptographic strength, JSON round-trip fidelity, clock behaviour around the expiry instant.
+Declined: cryptographic strength, what the serializer itself does to a value (tuples, non-string keys, NaN), clock behaviour
+around the expiry instant.
 
 Constructs are recognised by role, not by spelling: values are followed through single-assignment locals and
 (CFG) reaching definitions, conditions are taken from the path conditions in either polarity, constants are
@@ -132,12 +138,16 @@ class _Located(object):
 
 def run(rep):
     rep.decide('R16.a malformed cookies cannot raise out of the load; R16.b unquote total, quote total on what unquote returns, '
-               'codec agreement; R16.c MAC dominates use; R16.d key plumbing, provide-under-name, save on every path; '
+               'codec agreement, the two payload pipelines are inverse in shape; R16.c MAC dominates use; R16.d key plumbing, '
+               'provide-under-name, save on every path, stamp only when the cookie (consulted after the endpoint) has no expiry, '
+               'set_expires records the expiry where the dependency looks for it; '
                'R16.e nothing request() learns from one request is written into an object shared with the next; '
                'R16.f the random default key is drawn per constructed middleware; R16.g one cookie object flows unchanged from '
-               'verification to the endpoint to save_cookie, nothing of the request enters it; R16.h a modified cookie is written back '
+               'verification to the endpoint to save_cookie, nothing of the request enters it, the expiry save_cookie signs is the cookie\'s own; '
+               'R16.h a modified cookie is written back '
                '(should_save / constructor overrides)')
-    rep.decline('cryptographic strength; JSON round-trip fidelity; clock behaviour at the expiry instant')
+    rep.decline('cryptographic strength; what the serializer itself does to a value (JSON round-trip of tuples, non-string keys, NaN); '
+                'clock behaviour at the expiry instant')
     rep.assume('binascii.Error and UnicodeDecodeError are ValueError subclasses (CPython)')
     rep.assume('json.loads returns str values with unpaired surrogates for escapes such as "\\ud83d"; json.dumps emits ASCII only '
                'unless ensure_ascii is false; str.encode with the strict handler raises on unpaired surrogates for every codec')
@@ -1913,8 +1923,10 @@ class _Activation(object):
 
     def _callee(self, call):
         from ..effects import callee_of
+        # (a method the class inherits from a mixin / a helper imported from another module of the package is followed like one
+        #  written next to it: where the definition lives does not change what it writes)
         c = callee_of(self.cx.repo, self.fi, call)
-        return c if c is not None and c.mod is self.fi.mod else None
+        return c if c is not None and not c.mod.external else None
 
     def _shared_args(self, callee, call, at):
         """Parameters of ``callee`` that receive an object outliving this activation."""
